@@ -42,7 +42,16 @@ def run(ctx):
     lines, pend = [], []
     for _ in range(ctx.n(120, 3000)):
         jw = rng.random() < 0.5
-        c0, info = scenes.mk_jwst(rng) if jw else scenes.mk_fits(rng)
+        if not jw and rng.random() < 0.12:
+            # the reference pixel of a mosaic chip may lie outside the image: the centre scale is still the scale AT
+            # the tangent point (with a distortion the scale in the middle of the chip is another number)
+            sx, sy = rng.choice([(-0.4, 0.5), (1.4, 0.5), (0.5, -0.3), (1.2, 1.3), (-0.2, -0.2)])
+            shp = (1024, 1024)
+            c0, info = scenes.mk_fits(rng, kind=rng.choice(['siplin', 'siplin', 'cd']), shape=shp,
+                                      crpix=[sx * shp[0], sy * shp[1]])
+            info = dict(info, crpix_outside=True)
+        else:
+            c0, info = scenes.mk_jwst(rng) if jw else scenes.mk_fits(rng)
         unit = c0.tanp_center_pixel_scale if jw else 1.0
         hist = []
         for _k in range(rng.choice([0, 0, 1, 2])):
@@ -83,6 +92,18 @@ def run(ctx):
         ref = fd_scale(c, x, y)
         if not (abs(ps - ref) <= 1e-7 * ref):
             ctx.oracle_fail(case, {'what': 'tanp_pixel_scale != sqrt|det J| of det_to_tanp', 'got': ps, 'want': ref})
+        # pixel positions are often integers (python int, numpy integer): the same value as for the equal floats,
+        # also at the first pixel
+        if info['kind'] != 'lut' and rng.random() < 0.3:
+            ix_, iy_ = rng.choice([(0, 0), (0, int(y)), (int(x), 0), (int(x), int(y))])
+            ityp = rng.choice([int, np.int64, np.int32])
+            pi_ = c.tanp_pixel_scale(ityp(ix_), ityp(iy_))
+            pf_ = c.tanp_pixel_scale(float(ix_), float(iy_))
+            ctx.branch('integer-position')
+            if not (abs(pi_ - pf_) <= 1e-12 * pf_):
+                ctx.oracle_fail(dict(case, x=ix_, y=iy_), {'what': 'tanp_pixel_scale of an integer-typed position differs '
+                                                           'from the value at the equal float position', 'int': pi_,
+                                                           'float': pf_, 'type': ityp.__name__})
         # centre
         if jw:
             # the detector position of the tangent point, found with the FORWARD map only (Newton)
